@@ -355,6 +355,25 @@ def fork_case(ctx, case):
                                   f'codes {code},{code2}: {src!r} compiled to {got if isinstance(got, str) else got.hex()}, want {want_b.hex()}')
         except BaseException as e:
             ctx.violation({'block': 'C', 'clause': 'add_soft_fork installs at a free code', 'history': 'second fork'}, f'code {code2}: {e!r}')
+        # ... and a third fork whose own name, without its OP_ prefix, is spelled like the remaining alias of the first: the alias
+        # stays with the first fork, the full name reaches the third
+        code3 = code2 + 1 if code2 < 255 else 93
+        name3 = 'OP_' + aliases[1]
+        n += 1
+        try:
+            T.add_soft_fork(code3, name3, make_fork_op(pred), [])
+            for src, want_b in ((aliases[1] + ' d0', bytes([code, 0])), (aliases[1].lower() + ' d3', bytes([code, 3])),
+                                (name3 + ' d1', bytes([code3, 1])), (name + ' d1', bytes([code, 1])),
+                                ('if { %s d1 }' % aliases[1].lower(), b'\x2b\x00\x02' + bytes([code, 1]))):
+                try:
+                    got = P_.compile_script(src)
+                except BaseException as e:
+                    got = repr(e)
+                if got != want_b:
+                    ctx.violation({'block': 'C', 'clause': 'fork op reachable by its name and aliases', 'history': 'later fork named like an alias'},
+                                  f'codes {code},{code3}: {src!r} compiled to {got if isinstance(got, str) else got.hex()}, want {want_b.hex()}')
+        except BaseException as e:
+            ctx.violation({'block': 'C', 'clause': 'add_soft_fork installs at a free code', 'history': 'third fork'}, f'code {code3}: {e!r}')
     finally:
         restore(snap)
     # after restoring, the code is a NOP again
